@@ -107,6 +107,8 @@ pub enum Ev
     Bulk { uid: u32, released: u32, survivors: u32, held: u32, lost: u32 },
     /// does the scratch system's entity exist after the first / the second collection of the `RcScratch` op
     RcScratch { uid: u32, mid: bool, after: bool },
+    /// how many of the `n` reactors of a `ReactorBulk` op still exist after the collection that followed their release
+    ReactorBulk { uid: u32, n: u32, leaked: u32 },
     /// A `single*` accessor ran: the entity it reported and the value it saw before writing.
     Single { uid: u32, e: u64, old: Option<u8> },
     /// syscall family: callee body, and value returned to the caller.
@@ -126,6 +128,8 @@ pub enum Ev
     Bystander(String),
     /// Runner hook events (hooks only): kind, system entity bits.
     Runner(u8, u64),
+    /// (hook) a collection pass has received this entity from the channel and despawns it next
+    GcTake(u64),
 }
 
 pub const RK_ENTER_ROOT: u8 = 0;
